@@ -566,7 +566,14 @@ func TestVerifC12Breaker(t *testing.T) {
 			rep.Count("burst."+kind, 1)
 			rep.Count("rejected."+expect, rejected)
 			if kind == "down" {
-				if err := s.Restart(); err != nil {
+				var err error
+				for try := 0; try < 100; try++ { // another process may hold the port for a moment
+					if err = s.Restart(); err == nil {
+						break
+					}
+					time.Sleep(100 * time.Millisecond)
+				}
+				if err != nil {
 					v = kit.Verdict{Case: c.Index, Infra: true, Msg: "restart: " + err.Error()}
 					break
 				}
